@@ -200,7 +200,7 @@ fn network_case(rng: &mut Rng, idx: u64, out: &mut Out) {
     for l in cfg.layers.iter() {
         out.cover("layer_geometries", l.geometry());
     }
-    let net = match build(&cfg, Some(&params)) {
+    let mut net = match build(&cfg, Some(&params)) {
         Ok(n) => n,
         Err(m) => {
             out.viol("network:create-panic", format!("building {} panicked: {}", cfg.describe(), short(&m, 200)), case_json(&cfg, &params, &x));
@@ -248,6 +248,40 @@ fn network_case(rng: &mut Rng, idx: u64, out: &mut Out) {
             }
         }
     }
+    // call sequences on the same object: another input in between, the first input again, then
+    // new parameters - every answer must be the one of the CURRENT input and parameters
+    if idx % 2 == 0 {
+        let first = guard(|| net.predict(&reps[0].1));
+        let x2 = random_input(rng, cfg.input);
+        let t2 = tensor_of(cfg.input, &x2);
+        let want2 = r.forward(&Val::from_f32(cfg.input, &x2));
+        match guard(|| net.predict(&t2)) {
+            Ok(p2) => {
+                if let Some((i, got, w, tol)) = cmp_e(&flat(&p2), &want2.output().d) {
+                    out.viol("network:sequence:second-input", format!("second predict call on the same network (another input): prediction[{}] of {} = {:e}, expected {:e} (bound {:e})", i, cfg.describe(), got, w, tol), case_json(&cfg, &params, &x2));
+                }
+            }
+            Err(m) => out.viol("network:sequence:panic", format!("second predict call on {} panicked: {}", cfg.describe(), short(&m, 160)), case_json(&cfg, &params, &x2)),
+        }
+        if let (Ok(a), Ok(b)) = (&first, guard(|| net.predict(&reps[0].1))) {
+            if !bits_eq(&flat(a), &flat(&b)) {
+                out.viol("network:sequence:not-repeatable", format!("predict of {} on the same input differs after a call with another input", cfg.describe()), case_json(&cfg, &params, &x));
+            }
+        }
+        let params2 = gen_params(&cfg, rng, -1.5, 1.5).unwrap();
+        set_params(&mut net, &params2);
+        let r2: RNet<E> = RNet::plain(&cfg, &params2);
+        let want3 = r2.forward(&Val::from_f32(cfg.input, &x));
+        match guard(|| net.predict(&reps[0].1)) {
+            Ok(p3) => {
+                if let Some((i, got, w, tol)) = cmp_e(&flat(&p3), &want3.output().d) {
+                    out.viol("network:sequence:new-parameters", format!("predict after the parameters of {} were replaced: prediction[{}] = {:e}, expected {:e} (bound {:e})", cfg.describe(), i, got, w, tol), case_json(&cfg, &params2, &x));
+                }
+            }
+            Err(m) => out.viol("network:sequence:panic", format!("predict after replacing the parameters of {} panicked: {}", cfg.describe(), short(&m, 160)), case_json(&cfg, &params2, &x)),
+        }
+        out.count("call_sequences_on_one_network_object", 1);
+    }
     if idx < 3 {
         out.sample = Some(case_json(&cfg, &params, &x));
     }
@@ -261,7 +295,7 @@ impl Monitor for C02 {
         vec![("layers", tier.pick(486_000, 4_860_000)), ("large", tier.pick(6_000, 120_000)), ("networks", tier.pick(60_000, 600_000))]
     }
     fn rule(&self) -> &'static str {
-        "layers: case i -> layer kind (dense, conv, deconv, pool; conv and deconv twice as often), activation (i/6 mod 6, soft-max over the whole layer output included), geometry from the covering walk over the 108 per-axis (kernel 1..3, stride 1..3, padding 0..3, dilation 1..3) tuples on each axis independently (rectangular kernels, asymmetric stride/padding/dilation), channels/filters 1..3, extents from the smallest valid one up to 8, repetition-free weights and inputs in [-1.5,1.5], inputs scaled by 1 / 1e-12 / 1e-6 / 1e6 / 1e12; the layer's public forward is called with the 3-D tensor and with its row-major flattening; pre- and post-activation must lie within the running f32 error bound (refmodel::E) of the gather-form reference operator and have its shape. large: the same check on layers that are large in one direction - dense layers with inputs or outputs from {31..33, 63..66, 127..130, 255..257, 511, 513, 1023, 1025, 2047, 2049, 4095..4097, 8193} or random up to 9000, spatial layers with one extent from the same list up to 257 (the other 1..6), 1..17 channels and filters, kernels 1..7, stride 1..5, padding 0..4, dilation 1..4 (reference work bounded by 4e5 multiply-adds per case). networks: random sequences (depth 1..5, dense->spatial and spatial->dense transitions) - predict and every intermediate output of forward vs the composed reference, predict == manual composition of the layers' own forward (bit-exact), flat input representation too. Distinct = distinct configuration descriptors."
+        "layers: case i -> layer kind (dense, conv, deconv, pool; conv and deconv twice as often), activation (i/6 mod 6, soft-max over the whole layer output included), geometry from the covering walk over the 108 per-axis (kernel 1..3, stride 1..3, padding 0..3, dilation 1..3) tuples on each axis independently (rectangular kernels, asymmetric stride/padding/dilation), channels/filters 1..3, extents from the smallest valid one up to 8, repetition-free weights and inputs in [-1.5,1.5], inputs scaled by 1 / 1e-12 / 1e-6 / 1e6 / 1e12; the layer's public forward is called with the 3-D tensor and with its row-major flattening; pre- and post-activation must lie within the running f32 error bound (refmodel::E) of the gather-form reference operator and have its shape. large: the same check on layers that are large in one direction - dense layers with inputs or outputs from {31..33, 63..66, 127..130, 255..257, 511, 513, 1023, 1025, 2047, 2049, 4095..4097, 8193} or random up to 9000, spatial layers with one extent from the same list up to 257 (the other 1..6), 1..17 channels and filters, kernels 1..7, stride 1..5, padding 0..4, dilation 1..4 (reference work bounded by 4e5 multiply-adds per case). networks: random sequences (depth 1..5, dense->spatial and spatial->dense transitions) - predict and every intermediate output of forward vs the composed reference, predict == manual composition of the layers' own forward (bit-exact), flat input representation too; every second network additionally answers a call sequence on the same object (another input, the first input again - bit-equal to its first answer -, then replaced parameters: reference at the current input and parameters). Distinct = distinct configuration descriptors."
     }
     fn assumptions(&self) -> Vec<&'static str> {
         vec!["'the same result for flat and CxHxW input' is decided by comparing both with the reference within the rounding bound (bit-identity is recorded, not demanded)", "harness built with overflow checks on (debug-profile integer semantics)"]
